@@ -243,7 +243,12 @@ class Interp:
         if impl is None:
             raise NotEncoded(f"op {op_type}")
         self.symbolic_nodes += 1
-        outs = impl(ins, attrs, ctx)
+        try:
+            outs = impl(ins, attrs, ctx)
+        except (AttributeError, TypeError) as e:
+            # a tensor where a sequence is expected (or the reverse), None for a required input, ...: the model is ill-typed
+            kinds = [type(i).__name__ for i in ins]
+            raise Malformed(f"ill-typed operands for {op_type}: {kinds} ({type(e).__name__}: {str(e)[:120]})") from e
         self.assumptions.extend(ctx.assumptions)
         self.uf_used |= ctx.uf_used
         return outs
